@@ -12,7 +12,7 @@ from mc.props import c03
 ID = 'C19'
 ENGINE = 'E1 full product with before/after snapshots of every buffer handed to the library'
 RULE = ("full product dtype x byte order x shape {scalar, (R,2)} x layout {C, F, strided, read-only, view into a "
-        "larger buffer} x cast x source kind {inline, dict, structured array, HDF5} x input chunk x window x outcome "
+        "larger buffer} x cast x source kind {inline, dict, structured array, HDF5, mixed inline + dict} x input chunk x window x outcome "
         "{valid write, failing write: unsupported second channel, bad window}; before the write the harness snapshots "
         "the root buffer of every array (so memory around views is covered), the dict's keys and value identities, the "
         "structured array and the SHA-256 of the HDF5 file; after the write (success or exception) all must be "
@@ -31,7 +31,7 @@ def _tracking_make_array(a):
 
 
 def shards(tier):
-    return [{'dtype': d, 'src': s} for d in c03.DTYPES for s in c03.SRC]
+    return [{'dtype': d, 'src': s} for d in c03.DTYPES for s in c03.SRC + ['mixed']]
 
 
 def bounds(tier):
@@ -43,7 +43,7 @@ def cases(shard, tier):
     casts = c03.CASTS[d][:2] if tier == 'quick' else c03.CASTS[d]
     chunks = [None, 1] if tier == 'quick' else [None, 1, 2, 3]
     wins = [None, (1, 2)] if tier == 'quick' else [None, (1, 2), (0, 2), (1, 3), (2, 3)]
-    layouts = ['C', 'F', 'strided', 'readonly', 'view'] if src in ('inline', 'dict') else ['C', 'readonly']
+    layouts = ['C', 'F', 'strided', 'readonly', 'view'] if src in ('inline', 'dict', 'mixed') else ['C', 'readonly']
     for bo, shape, layout, cast, chunk, win, fail in itertools.product(
             ['<', '>'], ['s', 'w2'], layouts, casts, chunks, wins,
             ['none', 'bad-second-channel', 'bad-window']):
@@ -85,7 +85,11 @@ def _run(c, np):
            'pat': [p[k % len(p)] for k in range(n)], 'layout': c['layout'], 'cast': c['cast']}
     chans = [ch0, {'dtype': 'float32', 'bo': '<', 'shape': [rows], 'pat': [0x3F800000, 0x40000000, 0x40400000],
                    'layout': c['layout'] if c['layout'] != 'F' else 'C', 'cast': None}]
-    sp = c03.make_spec({'src': c['src'], 'vrl': 8192, 'chans': chans, 'chunk': c['chunk']})
+    sp = c03.make_spec({'src': 'dict' if c['src'] == 'mixed' else c['src'], 'vrl': 8192, 'chans': chans, 'chunk': c['chunk']})
+    if c['src'] == 'mixed':
+        # the first channel's array is given at creation, the second one through the dict passed to write()
+        arr0 = sp['write']['data']['$datadict'].pop('CH0')
+        sp['ops'][2]['kw']['data'] = arr0
     if c['win']:
         sp['write']['from_idx'], sp['write']['to_idx'] = c['win']
     if c['fail'] == 'bad-window':
